@@ -345,4 +345,29 @@ theorem poly3Q_id {a b : Rat} (ha : 0 < a) (hb : 0 < b) : poly3Q a b a b (a + b)
   have : 0 < a * b * (a + b) := by positivity
   linarith
 
+/-! ## audit round: the no-warp branch, empty masks, `CellsIn` for a well-shaped image -/
+
+theorem applyMasks_nil (y : List (List Rat)) : applyMasks y [] [] = y := by
+  apply List.ext_getElem (by simp [applyMasks])
+  intro j h1 h2
+  apply List.ext_getElem (by simp [applyMasks])
+  intro k h3 h4
+  simp [applyMasks, inMask]
+
+theorem applyParams_nowarp (epsG : Rat) (x : List (List Rat)) (T F len : Nat) (p : Params)
+    (hw : ¬ (p.warpT.isSome || p.warpF.isSome) = true) :
+    applyParams epsG x T F len p = applyMasks x p.tmasks p.fmasks := by
+  simp only [applyParams, if_neg hw]
+
+/-- For an image that really is `T × F` the `getD`-padded hypothesis `CellsIn` is the plain
+statement "every entry lies in `[lo, hi]`". -/
+theorem cellsIn_inRange {x : List (List Rat)} {T F : Nat} {lo hi : Rat} (hx : x.length = T)
+    (hr : ∀ r ∈ x, r.length = F) (H : CellsIn x T F lo hi) : InRange lo hi x := by
+  intro row hrow v hv
+  obtain ⟨j, hj, rfl⟩ := List.mem_iff_getElem.mp hrow
+  obtain ⟨k, hk, rfl⟩ := List.mem_iff_getElem.mp hv
+  have hkF : k < F := by have := hr _ (List.getElem_mem hj); omega
+  have := H j k (by omega) hkF
+  simpa [List.getD_eq_getElem?_getD, List.getElem?_eq_getElem hj, List.getElem?_eq_getElem hk] using this
+
 end PdtVerif.SpecAugment
